@@ -614,7 +614,7 @@ func (c *Ctx) runChild(self, workDir, family string, lo, hi int, o IsoOpts) {
 		fmt.Sprintf("VERIF_SEED=%d", c.Seed), "VERIF_TIER="+c.Tier)
 	if gr := os.Getenv("GORACE"); gr != "" {
 		// per-child race log
-		cmd.Env = append(cmd.Env, "GORACE=halt_on_error=0 log_path="+base+".race")
+		cmd.Env = append(cmd.Env, "GORACE=halt_on_error=0 exitcode=0 log_path="+base+".race")
 	}
 	if o.Env != nil {
 		cmd.Env = append(cmd.Env, o.Env(lo)...)
